@@ -65,6 +65,23 @@ func (p *populator) constraint(depth int) schema.Constraint {
 	if depth <= 0 {
 		k = k % 5
 	}
+	if p.variant == 1 {
+		// sparse: collections that do not (yet) say what they hold - valid schema values
+		switch k {
+		case 6:
+			return schema.List{Description: lang.Markdown("d"), MinItems: 1}
+		case 7:
+			return schema.Set{Description: lang.Markdown("d"), MaxItems: 2}
+		case 8:
+			return schema.Tuple{Description: lang.Markdown("d")}
+		case 9:
+			return schema.Map{Name: "m", AllowInterpolatedKeys: true}
+		case 10:
+			return schema.Object{Name: "o"}
+		case 11:
+			return schema.OneOf{schema.Set{}, schema.List{Elem: schema.Map{}}}
+		}
+	}
 	switch k {
 	case 0:
 		return schema.AnyExpression{OfType: cty.String, SkipLiteralComplexTypes: true}
@@ -645,6 +662,31 @@ func runC17(run *Run, replay string) {
 				table = append(table, observeFields(sub, orig, cp)...)
 				run.Sample(map[string]interface{}{"type": sub.name, "mutation_paths": len(paths)})
 			}
+		}
+	}
+	// collections that do not (yet) say what they hold, alone and nested: valid schema values, copied like any other
+	kw := schema.Keyword{Keyword: "kw"}
+	for i, c := range []schema.Constraint{
+		schema.Set{}, schema.List{}, schema.Map{}, schema.Tuple{}, schema.Object{}, schema.OneOf{},
+		schema.Set{Description: lang.Markdown("d"), MinItems: 1, MaxItems: 2},
+		schema.List{Elem: schema.Set{}}, schema.Set{Elem: schema.List{}}, schema.Map{Elem: schema.Set{}},
+		schema.OneOf{kw, schema.Set{}}, schema.OneOf{schema.List{}, schema.Map{}, schema.Tuple{}},
+		schema.Tuple{Elems: []schema.Constraint{kw, schema.Set{Elem: schema.Set{}}}},
+		schema.Map{Elem: schema.Tuple{Elems: []schema.Constraint{schema.Object{}, schema.Set{Elem: schema.Set{}}}}},
+		schema.Object{Attributes: schema.ObjectAttributes{"a": {IsOptional: true, Constraint: schema.Set{}}}},
+	} {
+		cp, pan := callCopy(reflect.ValueOf(c))
+		run.Res.Evaluations++
+		run.Count("element_less_collections")
+		name := reflect.TypeOf(c).Name()
+		if pan != "" {
+			run.Violate(Violation{Key: "C17/panic/" + name, Rule: "Copy() returns without panicking", Func: "schema." + name + ".Copy",
+				Detail: pan, Replay: map[string]interface{}{"type": name, "variant": "element-less", "index": i, "value": fmt.Sprintf("%#v", c)}})
+			continue
+		}
+		if eq, diff := deepEqual(c, cp.Interface()); !eq {
+			run.Violate(Violation{Key: "C17/not-equal/" + name, Rule: "the copy is structurally equal to the original in every field",
+				Func: "schema." + name + ".Copy", Detail: diff, Replay: map[string]interface{}{"type": name, "variant": "element-less", "index": i}})
 		}
 	}
 	writeFieldsTable(table, filepath.Join(run.OutDir, "Fields.v"))
